@@ -85,6 +85,10 @@ pub struct C16 {
     /// labels are the CLI's `formula-i` and set i is the raw result of formula line i
     pub cli_form: bool,
     pub nested_path: bool,
+    /// the archive path is given relative to the current directory
+    pub relative_path: bool,
+    /// wall-clock script for the whole scenario (zip entries are stamped with the current time)
+    pub clock: String,
     pub ops: Vec<Op>,
 }
 
@@ -178,6 +182,8 @@ impl C16 {
             "formulae": self.formulae,
             "cli_form": self.cli_form,
             "nested_path": self.nested_path,
+            "relative_path": self.relative_path,
+            "clock": self.clock,
             "ops": self.ops.iter().map(|o| o.to_json()).collect::<Vec<_>>(),
         })
     }
@@ -196,6 +202,8 @@ impl C16 {
             formulae: v["formulae"].as_array().map(|a| a.iter().map(|s| s.as_str().unwrap_or("").to_string()).collect()).unwrap_or_default(),
             cli_form: v["cli_form"].as_bool().unwrap_or(false),
             nested_path: v["nested_path"].as_bool().unwrap_or(false),
+            relative_path: v["relative_path"].as_bool().unwrap_or(false),
+            clock: v["clock"].as_str().unwrap_or(crate::CLOCK_SCRIPT).to_string(),
             ops,
         })
     }
@@ -390,7 +398,15 @@ pub fn generate(rng: &Rng, world: &World, tier: &str) -> C16 {
             ops.extend(s.into_iter().take(2));
         }
     }
-    C16 { format, sets, formulae, cli_form, nested_path: r.chance(1, 4), ops }
+    let clock = if r.chance(1, 2) {
+        crate::CLOCK_SCRIPT.to_string()
+    } else {
+        // before 1980, after 2107 (outside the range of zip time stamps), stepping backwards, stuck
+        let base: i64 = *r.pick(&[0i64, 1_000, 315_532_799_000, 4_354_819_200_000, 1_700_000_000_000, 951_782_400_000]);
+        let ds: Vec<String> = (0..r.range(1, 6)).map(|_| (*r.pick(&[0i64, 1, 7, 86_400_000, -5_000, -86_400_000, 3_000_000_000])).to_string()).collect();
+        format!("{base}:{}", ds.join(","))
+    };
+    C16 { format, sets, formulae, cli_form, nested_path: r.chance(1, 4), relative_path: r.chance(1, 4), clock, ops }
 }
 
 // ---------------------------------------------------------------------------------------------
@@ -403,6 +419,7 @@ struct Ctx16 {
     model_text: String,
     path: String,
     io_dir: String,
+    clock: String,
 }
 
 fn counters_fired(before: &[u64], after: &[u64]) -> Vec<(String, u64)> {
@@ -724,9 +741,10 @@ impl Ctx16 {
             .arg("load-child")
             .arg(&spec_path)
             .env("VERIF_RAND", hash_seed.to_string())
-            .env("VERIF_CLOCK", crate::CLOCK_SCRIPT)
+            .env("VERIF_CLOCK", &self.clock)
             .env("VERIF_IO_PREFIX", &self.io_dir)
             .env("VERIF_IO_PLAN", plan)
+            .current_dir(std::env::current_dir().unwrap_or_else(|_| "/".into()))
             .stderr(std::process::Stdio::null())
             .output();
         let out = match out {
@@ -849,8 +867,27 @@ pub fn check(world: &World, sc: &C16, sandbox: &str) -> Report {
     let io_dir = format!("{sandbox}/io");
     let _ = std::fs::remove_dir_all(&io_dir);
     let _ = std::fs::create_dir_all(&io_dir);
-    let path = if sc.nested_path { format!("{io_dir}/new/dir/results.zip") } else { format!("{io_dir}/results.zip") };
-    let cx = Ctx16 { model_text: bn.to_string(), bn, graph, k: world.k, inmem, path, io_dir };
+    // the scenario's wall clock; a relative archive path is resolved against the I/O directory
+    simenv::clock(&sc.clock);
+    struct Cwd(Option<std::path::PathBuf>);
+    impl Drop for Cwd {
+        fn drop(&mut self) {
+            if let Some(p) = &self.0 {
+                let _ = std::env::set_current_dir(p);
+            }
+        }
+    }
+    let _cwd_guard = if sc.relative_path {
+        let old = std::env::current_dir().ok();
+        let _ = std::env::set_current_dir(&io_dir);
+        rep.probe("relative_archive_paths", 1);
+        Cwd(old)
+    } else {
+        Cwd(None)
+    };
+    let dir_part = if sc.relative_path { String::new() } else { format!("{io_dir}/") };
+    let path = if sc.nested_path { format!("{dir_part}new/dir/results.zip") } else { format!("{dir_part}results.zip") };
+    let cx = Ctx16 { model_text: bn.to_string(), bn, graph, k: world.k, inmem, path, io_dir, clock: sc.clock.clone() };
     rep.probe("labels", cx.inmem.len() as u64);
     for (l, set) in &cx.inmem {
         let n = set.as_bdd().to_string().len() as u64;
@@ -1259,7 +1296,7 @@ fn crash_save_child(cx: &Ctx16, sc: &C16, sandbox: &str, kill_w: u64, let_throug
         .arg("save-child")
         .arg(&spec_path)
         .env("VERIF_RAND", hash_seed.to_string())
-        .env("VERIF_CLOCK", crate::CLOCK_SCRIPT)
+        .env("VERIF_CLOCK", &cx.clock)
         .env("VERIF_IO_PREFIX", &cx.io_dir)
         .env("VERIF_IO_PLAN", format!("kill_w={kill_w}:{let_through}"))
         .stdout(std::process::Stdio::null())
@@ -1347,6 +1384,16 @@ pub fn shrinks(sc: &C16) -> Vec<C16> {
     if sc.nested_path {
         let mut s = sc.clone();
         s.nested_path = false;
+        out.push(s);
+    }
+    if sc.relative_path {
+        let mut s = sc.clone();
+        s.relative_path = false;
+        out.push(s);
+    }
+    if sc.clock != crate::CLOCK_SCRIPT {
+        let mut s = sc.clone();
+        s.clock = crate::CLOCK_SCRIPT.to_string();
         out.push(s);
     }
     if sc.format != "aeon" {
